@@ -41,6 +41,7 @@ type Task struct {
 	// task holds right now; touched by the task itself only.
 	LockDepth  int
 	wasRunning bool
+	late       bool
 	s    *Sched
 
 	gid    uint64
@@ -285,8 +286,19 @@ func (s *Sched) release(t *Task) {
 	t.state = stRunning
 	switch s.Mode {
 	case ModePlain:
+		if t.late {
+			<-t.arrive // the arrival this task signalled after it had been given up on
+			t.late = false
+		}
 		t.resume <- struct{}{}
-		<-t.arrive
+		select {
+		case <-t.arrive:
+		case <-time.After(20 * RealBlockWait):
+			// blocked on a real lock inside the library (see awaitArrival); correct
+			// code never gets here: every wait of a ModePlain run is a gate
+			s.RealBlocked++
+			t.late = true
+		}
 	case ModeBubble:
 		t.resume <- struct{}{}
 		synctest.Wait()
@@ -403,6 +415,20 @@ func (s *Sched) Run() error {
 			}
 			if s.Mode == ModeFutex && s.markRunning() > 0 && s.waitAnyArrival(20*RealBlockWait) {
 				continue // a task that was blocked on a real lock has come through
+			}
+			if s.Mode == ModePlain && s.markRunning() > 0 {
+				came := false
+				for i := 0; i < 300 && !came; i++ {
+					time.Sleep(10 * time.Millisecond)
+					for _, t := range s.Tasks {
+						if t.wasRunning && t.state != stRunning {
+							came = true
+						}
+					}
+				}
+				if came {
+					continue
+				}
 			}
 			return ErrStuck
 		}
